@@ -313,7 +313,10 @@ def _check_stack_args(arrays, keys=None):
     # convert dictionary to sequence + keys
     if isinstance(arrays, dict):
         if keys is None: keys = list(arrays.keys())
-        arrays = list(arrays.values())
+        if all(k in arrays for k in keys):
+            arrays = [arrays[k] for k in keys] # in the order of the keys
+        else:
+            arrays = list(arrays.values()) # keys are new labels
         
     # make sure the result is a sequence
     if type(arrays) not in (list, tuple):
